@@ -5,10 +5,11 @@
    backing parts) never change (C03_settled_final, C03_terms_fixed), together with C08_indexes (exactly once in the
    settled index).  Since the repair of D3 (e3645c4) also: no backing part is negative and the stake taken never exceeds the requested stake
    (C03_parts_nonneg, C03_within_requested), for every split of the bet over the queue; the histories that exhibited
-   D3 on the real code are kept as regression examples (Witness/D3w.v, corpus/C03).  That Σ part payouts equals the integer
-   part of stake x (odds - 1) is decided per run by the accounting monitors + kernel stream. *)
+   D3 on the real code are kept as regression examples (Witness/D3w.v, corpus/C03).  C03_promised: for every split of the bet over
+   the queue, the winnings promised by its backing parts add up to exactly the integer part of (amount - fee) x (odds - 1)
+   (Proofs/WagerPay.v); with C03_payout and C03_terms_fixed a winner therefore receives the stake charged plus exactly that. *)
 From Coq Require Import ZArith Bool List.
-From Sge Require Import Lib.Dec Model.Types Model.Orderbook Model.Mint Model.Chain Proofs.WagerLoop Proofs.Inversion Proofs.Custody Proofs.Mono Proofs.WagerBounds Witness.D3w.
+From Sge Require Import Lib.Dec Model.Types Model.Orderbook Model.Mint Model.Chain Proofs.WagerLoop Proofs.Inversion Proofs.Custody Proofs.Mono Proofs.WagerBounds Proofs.WagerPay Witness.D3w.
 Import ListNotations.
 Open Scope Z_scope.
 
@@ -92,3 +93,15 @@ Example C03_regression_D3 :
   c_halted (run d3over_init d3over_ops) = false /\ c_betcnt (run d3over_init d3over_ops) = 1 /\
   stake_above_requested (run d3over_init d3over_ops) 50 3 = false.
 Proof. vm_compute. repeat split; reflexivity. Qed.
+
+(* what the ticket promised: the payouts of the backing parts of the stored bet add up to the integer part of
+   (amount - fee) x odds - (amount - fee), for all odds > 1 and every distribution of liquidity over the queue *)
+Theorem C03_promised : forall s sg u a sm so ov mu al s',
+  wager_core s sg u a sm so ov mu al = Some s' -> pr_bet_fee (c_prm s) <= pr_bet_min (c_prm s) ->
+  exists x x' b profit,
+    get_ms s sm = Some x /\ get_ms s' sm = Some x' /\ ms_bets x' = ms_bets x ++ [b] /\ b_uid b = u /\ b_oddsval b = ov /\
+    payout_profit ov (a - pr_bet_fee (c_prm s)) = Some profit /\ 0 <= profit /\
+    zsum (map f_pay (b_parts b)) = dec_trunc_int profit /\
+    profit = dec_mulint ov (a - pr_bet_fee (c_prm s)) - dec_of_int (a - pr_bet_fee (c_prm s)).
+Proof. exact wager_core_promised. Qed.
+Print Assumptions C03_promised.
